@@ -333,3 +333,33 @@ func VerifUpdateActionResult() {
 		vsym.Assert(ok, "ac/C11-inline-file-also-stored-in-the-CAS-under-its-digest")
 	}
 }
+
+// With key mangling on, the write path validates the client's hash before it
+// is mangled with the instance name: a string that is not a sha256 hex digest
+// is refused and stores nothing (otherwise (h+x, y) collides with (h, x+y)).
+func VerifUpdateActionResultKey() {
+	c := &vCache{maxBlobSize: 1 << 40, good: map[string]bool{}}
+	s := vNewServer(c)
+	s.mangleACKeys = true
+	hash := []string{vHashA, vHashA + "team-a/", vHashA[:63], vHashA[:63] + "G", "", "zz" + vHashA[2:], vHashA + "0"}[vsym.Choose("hash", 7)]
+	inst := []string{"", "main", "team-a/main"}[vsym.Choose("instance", 3)]
+	valid := hash == vHashA
+	ar := &pb.ActionResult{ExitCode: 7}
+	req := &pb.UpdateActionResultRequest{InstanceName: inst, ActionDigest: &pb.Digest{Hash: hash, SizeBytes: 9}, ActionResult: ar}
+
+	_, err := s.UpdateActionResult(context.Background(), req)
+
+	vsym.Reach("update-key-returned")
+	if !valid {
+		vsym.Reach("update-key-malformed")
+		vsym.Assert(err != nil, "ac/C15-malformed-action-digest-accepted-when-mangling")
+		vsym.Assert(len(c.puts) == 0, "ac/C15-malformed-action-digest-stored-something")
+		return
+	}
+	vsym.Assert(err == nil, "ac/C15-well-formed-action-digest-refused")
+	ok := len(c.puts) == 1
+	vsym.Assert(ok, "ac/C15-one-entry-stored")
+	if ok {
+		vsym.Assert(c.puts[0].kind == cache.AC && c.puts[0].hash == cache.TransformActionCacheKey(vHashA, inst, vLog{}), "ac/C15-stored-under-the-key-of-its-instance")
+	}
+}
